@@ -32,7 +32,8 @@ impl PartialEq for J {
             (J::Bool(a), J::Bool(b)) => a == b,
             (J::Int(a), J::Int(b)) => a == b,
             (J::Float(a), J::Float(b)) => a == b,
-            (J::Int(a), J::Float(b)) | (J::Float(b), J::Int(a)) => (*a as f64) == *b,
+            // like serde_json, an integer and a float are different values for `==` of the data type itself:
+            // numeric interoperability is the engine's job (eq_json), not something it may delegate to PartialEq
             (J::Str(a), J::Str(b)) => a == b,
             (J::Arr(a), J::Arr(b)) => a == b,
             (J::Obj(a), J::Obj(b)) => {
@@ -147,3 +148,94 @@ impl J {
 }
 
 impl jsonpath_rust::JsonPath for J {}
+
+
+/// `Sh`: a third faithful `Queryable` whose arrays and objects are reference-counted and SHARED between equal
+/// sub-documents (hash-consing). Two different locations may therefore have the same address; an engine that relies on
+/// node identity (addresses) instead of the trait's view is noticed (C15).
+#[derive(Clone, Debug)]
+pub enum Sh {
+    Null,
+    Bool(bool),
+    Int(i64),
+    Float(f64),
+    Str(String),
+    Arr(std::sync::Arc<Vec<Sh>>),
+    Obj(std::sync::Arc<Vec<(String, Sh)>>),
+}
+impl Default for Sh {
+    fn default() -> Self {
+        Sh::Str("default".into())
+    }
+}
+impl PartialEq for Sh {
+    fn eq(&self, o: &Sh) -> bool {
+        match (self, o) {
+            (Sh::Null, Sh::Null) => true,
+            (Sh::Bool(a), Sh::Bool(b)) => a == b,
+            (Sh::Int(a), Sh::Int(b)) => a == b,
+            (Sh::Float(a), Sh::Float(b)) => a == b,
+            (Sh::Str(a), Sh::Str(b)) => a == b,
+            (Sh::Arr(a), Sh::Arr(b)) => a == b,
+            (Sh::Obj(a), Sh::Obj(b)) => a.len() == b.len() && a.iter().all(|(k, v)| b.iter().any(|(k2, v2)| k == k2 && v == v2)),
+            _ => false,
+        }
+    }
+}
+impl From<&str> for Sh { fn from(s: &str) -> Self { Sh::Str(s.to_string()) } }
+impl From<String> for Sh { fn from(s: String) -> Self { Sh::Str(s) } }
+impl From<bool> for Sh { fn from(b: bool) -> Self { Sh::Bool(b) } }
+impl From<i64> for Sh { fn from(i: i64) -> Self { Sh::Int(i) } }
+impl From<f64> for Sh { fn from(f: f64) -> Self { Sh::Float(f) } }
+impl From<Vec<Sh>> for Sh { fn from(v: Vec<Sh>) -> Self { Sh::Arr(std::sync::Arc::new(v)) } }
+impl Queryable for Sh {
+    fn get(&self, key: &str) -> Option<&Self> {
+        let key = if key.len() >= 2 && ((key.starts_with('\'') && key.ends_with('\'')) || (key.starts_with('"') && key.ends_with('"'))) { &key[1..key.len() - 1] } else { key };
+        match self { Sh::Obj(m) => m.iter().find(|(k, _)| k == key).map(|(_, v)| v), _ => None }
+    }
+    fn as_array(&self) -> Option<&Vec<Self>> { match self { Sh::Arr(a) => Some(a), _ => None } }
+    fn as_object(&self) -> Option<Vec<(&String, &Self)>> { match self { Sh::Obj(m) => Some(m.iter().map(|(k, v)| (k, v)).collect()), _ => None } }
+    fn as_str(&self) -> Option<&str> { match self { Sh::Str(s) => Some(s), _ => None } }
+    fn as_i64(&self) -> Option<i64> { match self { Sh::Int(i) => Some(*i), _ => None } }
+    fn as_f64(&self) -> Option<f64> { match self { Sh::Float(f) => Some(*f), Sh::Int(i) => Some(*i as f64), _ => None } }
+    fn as_bool(&self) -> Option<bool> { match self { Sh::Bool(b) => Some(*b), _ => None } }
+    fn null() -> Self { Sh::Null }
+}
+impl jsonpath_rust::JsonPath for Sh {}
+impl Sh {
+    /// Builds the shared representation of a JSON value: equal arrays / objects become ONE allocation.
+    pub fn from_value(v: &serde_json::Value, cache: &mut std::collections::HashMap<String, Sh>) -> Sh {
+        use serde_json::Value;
+        match v {
+            Value::Null => Sh::Null,
+            Value::Bool(b) => Sh::Bool(*b),
+            Value::Number(n) => n.as_i64().map(Sh::Int).unwrap_or_else(|| Sh::Float(n.as_f64().unwrap_or(0.0))),
+            Value::String(s) => Sh::Str(s.clone()),
+            Value::Array(_) | Value::Object(_) => {
+                let key = v.to_string();
+                if let Some(s) = cache.get(&key) {
+                    return s.clone();
+                }
+                let built = match v {
+                    Value::Array(a) => Sh::Arr(std::sync::Arc::new(a.iter().map(|x| Sh::from_value(x, cache)).collect())),
+                    Value::Object(o) => Sh::Obj(std::sync::Arc::new(o.iter().map(|(k, x)| (k.clone(), Sh::from_value(x, cache))).collect())),
+                    _ => unreachable!(),
+                };
+                cache.insert(key, built.clone());
+                built
+            }
+        }
+    }
+    pub fn to_value(&self) -> serde_json::Value {
+        use serde_json::Value;
+        match self {
+            Sh::Null => Value::Null,
+            Sh::Bool(b) => Value::Bool(*b),
+            Sh::Int(i) => Value::from(*i),
+            Sh::Float(f) => Value::from(*f),
+            Sh::Str(s) => Value::String(s.clone()),
+            Sh::Arr(a) => Value::Array(a.iter().map(|x| x.to_value()).collect()),
+            Sh::Obj(m) => Value::Object(m.iter().map(|(k, v)| (k.clone(), v.to_value())).collect()),
+        }
+    }
+}
